@@ -225,7 +225,7 @@ register("tenalg.tensordot", s_tensordot(), b_tensordot, dtypes=CPLX, backends=T
 def s_mttkrp(draw):
     shape = draw(small_shape(2, 4, 1, 3, 54))
     r = draw(st.integers(1, 3))
-    return {"X": draw(enc(shape)), "factors": [draw(enc([s, r])) for s in shape], "weights": draw(st.one_of(st.none(), enc([r]))),
+    return {"X": draw(enc(shape)), "factors": [draw(enc([s, r])) for s in shape], "weights": draw(st.one_of(st.none(), st.none(), enc([r]))),
             "mode": draw(st.integers(0, len(shape) - 1)), "argkind": draw(st.sampled_from(["tuple", "list", "cpt"]))}
 
 
